@@ -428,4 +428,22 @@ def tableCodec (t : List (Option Nat)) : Codec :=
 /-- cp1252: the table is generated from the running interpreter (`harness/translate_cp1252.py`) -/
 def cp1252 : Codec := tableCodec Gen.Cp1252.table
 
+/-! ### vocabulary of the binary `load_lines` statements (executable: also answered by the driver) -/
+
+/-- **the condition on a line**: the first occurrence of the EOL in `line + EOL` is the one at the
+end of the line — Python: `(line + EOL).find(EOL) == len(line)`.  It fails when the line contains
+the EOL, and when an end of the line together with a beginning of the EOL spells the EOL
+(`'a|' + '||'`); what follows the EOL (the next line) plays no role. -/
+def lineOk (e : Bytes) : Bytes → Bool
+  | [] => true
+  | c :: l => !startsWith (c :: l ++ e) e && lineOk e l
+
+/-- the file content for a list of byte lines: every line followed by the EOL -/
+def unlinesB (e : Bytes) (ls : List Bytes) : Bytes := ls.flatMap (fun l => l ++ e)
+
+/-- the start-of-stream mark goes in front of the first line -/
+def markFirst (bom : Bytes) : List Bytes → List Bytes
+  | [] => []
+  | l :: ls => (bom ++ l) :: ls
+
 end N0.Files
